@@ -246,6 +246,81 @@ func smallRequests(n, firstSid int) []frameSpec {
 	return specs
 }
 
+// Envelopes that are a BARE HEADER (9 bytes, empty body: OPTIONS towards the server, READY towards the client) in every
+// position of self-contained segments - first, in the middle, last, alone, several in a row - mixed with envelopes that
+// have a body (B), one envelope cut over three non-self-contained segments (S) and, towards the client, events (E).
+// The core patterns are fixed, a seeded random tail follows.
+func emptyTailScript(r *rand.Rand, v primitive.ProtocolVersion, towardsClient bool, firstSid int) ([]frameSpec, []segPlan) {
+	patterns := []string{"BO", "O", "OO", "BBO", "OB", "S", "O", "BOB", "OOO", "BOO"}
+	if towardsClient {
+		patterns = append(patterns, "EO", "OE")
+	}
+	for k := 0; k < 6; k++ {
+		n := 1 + r.Intn(4)
+		pat := ""
+		for j := 0; j < n; j++ {
+			pat += string("BO"[r.Intn(2)])
+		}
+		if r.Intn(2) == 0 {
+			pat = pat[:n-1] + "O"
+		}
+		patterns = append(patterns, pat)
+	}
+	reqB := []string{"query", "prepare", "execute", "batch", "register", "authresponse"}
+	respB := []string{"rows", "void", "supported", "setks", "unavailable", "authchallenge"}
+	sizes := []int{1, 5, 40, 300, 3000}
+	var specs []frameSpec
+	var plan []segPlan
+	sid, nb, ne := firstSid, 0, 0
+	for _, pat := range patterns {
+		var cur [][3]int
+		for _, ch := range pat {
+			var sp frameSpec
+			switch {
+			case ch == 'E':
+				sp = frameSpec{Kind: "event", Sid: -1, Fill: "p", Seed: ne + 1, N: 20 + 3*ne}
+				ne++
+			case ch == 'O' && towardsClient:
+				sp = frameSpec{Kind: "ready", Sid: sid}
+			case ch == 'O':
+				sp = frameSpec{Kind: "options", Sid: sid}
+			default:
+				kinds := reqB
+				if towardsClient {
+					kinds = respB
+				}
+				sp = frameSpec{Kind: kinds[nb%len(kinds)], Sid: sid, Fill: []string{"p", "l"}[r.Intn(2)], Seed: r.Intn(250), N: sizes[r.Intn(len(sizes))] + r.Intn(7)}
+				nb++
+			}
+			if sp.Sid >= 0 {
+				sid++
+			}
+			i := len(specs)
+			specs = append(specs, sp)
+			n := envLen(v, sp)
+			if ch == 'S' {
+				plan = append(plan, splitPlan(i, cutParts(r, n, 3, 1))...)
+			} else {
+				cur = append(cur, whole(i, n))
+			}
+		}
+		if len(cur) > 0 {
+			plan = append(plan, segPlan{Self: true, Slices: cur})
+		}
+	}
+	return specs, plan
+}
+
+func answered(specs []frameSpec) int {
+	n := 0
+	for _, s := range specs {
+		if s.Sid >= 0 {
+			n++
+		}
+	}
+	return n
+}
+
 // ---- the plan of a tier
 
 func buildPlan(tier string, seed int64) []planned {
@@ -254,6 +329,36 @@ func buildPlan(tier string, seed int64) []planned {
 	var plan []planned
 	add := func(p planned) { plan = append(plan, p) }
 	v5 := primitive.ProtocolVersion5
+
+	// (0) bare headers at the end of / alone in self-contained segments (an own random stream: the other scripts keep theirs).
+	// First the two smallest scripts there are in each direction, then the patterns of emptyTailScript.
+	r0 := rand.New(rand.NewSource(seed ^ 0x5eed15))
+	qry := frameSpec{Kind: "query", Sid: 10, Fill: "p", Seed: 3, N: 20}
+	opt := frameSpec{Kind: "options", Sid: 11}
+	add(planned{ID: "rawclient-v5-bare-header-alone", Mode: "rawclient", Version: 5, Comp: "NONE",
+		Script: &rawScript{Specs: []frameSpec{opt}, Plan: []segPlan{{Self: true, Slices: [][3]int{whole(0, 9)}}}, Conforming: true, Class: "empty-tail"}})
+	add(planned{ID: "rawclient-v5-bare-header-last", Mode: "rawclient", Version: 5, Comp: "NONE",
+		Script: &rawScript{Specs: []frameSpec{qry, opt}, Plan: []segPlan{{Self: true, Slices: [][3]int{whole(0, envLen(v5, qry)), whole(1, 9)}}}, Conforming: true, Class: "empty-tail"}})
+	rws := frameSpec{Kind: "rows", Sid: 10, Fill: "p", Seed: 3, N: 20}
+	rdy := frameSpec{Kind: "ready", Sid: 11}
+	add(planned{ID: "rawserver-v5-bare-header-alone", Mode: "rawserver", Version: 5, Comp: "NONE", Reqs: smallRequests(2, 10),
+		Script: &rawScript{Specs: []frameSpec{rdy}, Plan: []segPlan{{Self: true, Slices: [][3]int{whole(0, 9)}}}, Conforming: true, Class: "empty-tail"}})
+	add(planned{ID: "rawserver-v5-bare-header-last", Mode: "rawserver", Version: 5, Comp: "NONE", Reqs: smallRequests(2, 10),
+		Script: &rawScript{Specs: []frameSpec{rws, rdy}, Plan: []segPlan{{Self: true, Slices: [][3]int{whole(0, envLen(v5, rws)), whole(1, 9)}}}, Conforming: true, Class: "empty-tail"}})
+	etRounds := 1
+	if thorough {
+		etRounds = 6
+	}
+	for round := 0; round < etRounds; round++ {
+		for ci, c := range []primitive.Compression{primitive.CompressionNone, primitive.CompressionLz4} {
+			specs, pl := emptyTailScript(r0, v5, false, 10)
+			add(planned{ID: fmt.Sprintf("rawclient-v5-%s-emptytail-%d", compName(c), round), Mode: "rawclient", Version: 5, Comp: string(c), Auth: (round+ci)%2 == 1,
+				Script: &rawScript{Specs: specs, Plan: pl, Chunk: chunkFor(r0, 5000), Conforming: true, Class: "empty-tail"}})
+			resps, pl2 := emptyTailScript(r0, v5, true, 10)
+			add(planned{ID: fmt.Sprintf("rawserver-v5-%s-emptytail-%d", compName(c), round), Mode: "rawserver", Version: 5, Comp: string(c), Auth: (round+ci)%2 == 0,
+				Reqs: smallRequests(answered(resps), 10), Script: &rawScript{Specs: resps, Plan: pl2, Chunk: chunkFor(r0, 5000), Conforming: true, Class: "empty-tail"}})
+		}
+	}
 
 	// (a) loopback: real client <-> real server
 	i := 0
